@@ -4,6 +4,7 @@ from concurrent.futures import ThreadPoolExecutor
 from . import build, harness
 
 HARNESSES = ["h_uf", "h_orw"]
+TREES = ("san", "plain")
 
 
 def all_harness_items():
@@ -19,11 +20,14 @@ def all_harness_items():
 def main():
     t0 = time.time()
     os.makedirs(build.BUILD, exist_ok=True)
-    # two trees at a time (Engine.cpp needs ~6 GB per compile job at its peak)
+    # cheap part first: every harness flavour of the data-structure checks (C29, C30)
+    harness.ensure_many(all_harness_items(), jobs=16)
+    sys.stderr.write("[setup] harnesses built in %.0fs\n" % (time.time() - t0))
+    # the two souffle trees the registered whole-program checks (C03-C06) use; both at once
+    # (Engine.cpp needs ~6 GB per compile job at its peak, hence 10 jobs each)
     with ThreadPoolExecutor(max_workers=2) as ex:
-        futs = [ex.submit(build.ensure_tree, n, 12) for n in ("san", "tsan", "plain")]
+        futs = [ex.submit(build.ensure_tree, n, 10) for n in TREES]
         for f in futs:
             f.result()
-    harness.ensure_many(all_harness_items(), jobs=16)
     sys.stderr.write("[setup] done in %.0fs\n" % (time.time() - t0))
     return 0
